@@ -333,6 +333,22 @@ Proof.
   destruct f; reflexivity.
 Qed.
 
+  (** the non-panicking wall-clock reading agrees with the panicking one wherever that returns *)
+  Lemma overflowing_naive_local_of_naive_local dt secs frac off r :
+    naive_local (mk_dtz (mk_ndt dt (Time.mk_time secs frac)) off) = Val r ->
+    overflowing_naive_local (mk_dtz (mk_ndt dt (Time.mk_time secs frac)) off) = Val r.
+  Proof.
+    unfold naive_local, overflowing_naive_local, ndt_checked_add_offset, ndt_overflowing_add_offset.
+    cbn [dz_utc dz_off nd_date nd_time].
+    destruct (Time.overflowing_add_offset (Time.mk_time secs frac) off) as [[t days]| |]; cbn [bind]; try discriminate.
+    unfold shift_date_checked, shift_date_overflowing.
+    destruct (days =? -1).
+    - destruct (Date.pred_opt dt) as [[p|]| |]; cbn [bind obind unwrap_r unwrap]; try discriminate. intros H; exact H.
+    - destruct (days =? 1).
+      + destruct (Date.succ_opt dt) as [[p|]| |]; cbn [bind obind unwrap_r unwrap]; try discriminate. intros H; exact H.
+      + cbn [bind obind unwrap_r unwrap]. intros H; exact H.
+  Qed.
+
   (** ** the writer entry point: to_rfc3339_opts shows exactly the fields of the value *)
   Theorem to_rfc3339_opts_ok y o dt secs frac off sf uz :
     valid_yo y o = true -> good dt (dn_of_yo y o) ->
@@ -344,7 +360,7 @@ Qed.
   Proof.
     intros Hv Hg Hs Hf Hl Ho Hm Hsf Hy. unfold to_rfc3339_opts.
     destruct (naive_local_ok y o dt secs frac off Hv Hg Hs Ho Hy) as (dl & Hn & Hgl).
-    rewrite Hn. cbn [bind dz_off].
+    rewrite (overflowing_naive_local_of_naive_local _ _ _ _ _ Hn). cbn [bind dz_off].
     rewrite (write_rfc3339_ok dl (wall_dn y o secs off) (wall_secs secs off) frac off sf uz); try assumption.
     - reflexivity.
     - unfold wall_secs. lia.
